@@ -10,6 +10,9 @@ for d in sorted(os.listdir(root)):
     if not os.path.exists(mp) or (only and d not in only):
         continue
     m = json.load(open(mp))
+    if m.get("out_of_domain"):
+        print(d, "out of domain:", m["out_of_domain"][:80], flush=True)
+        continue
     props = sorted(set([m["property"]] + (m.get("caught_by") or [])))
     r = subprocess.run(["/verif/tools/seedcheck.py", os.path.join(root, d), "--props", ",".join(props)], capture_output=True, text=True, env=dict(os.environ, VERIF_CASE_TIMEOUT="60"))
     try:
